@@ -84,6 +84,7 @@ fn gen_case(rng: &mut Rng, tier: u32) -> Case {
     let n = 1 + rng.below(if tier > 0 { 80 } else { 30 }) as usize;
     let mut recv = S0 + 10_000_000;
     let mut msgs = vec![];
+    let idx_mode = rng.below(8);
     for i in 0..n {
         recv += [0u64, 0, 100, 10_000, 300_000, 1_100_000, 4_000_000, 30_000_000][rng.below(8) as usize];
         let recv_m = if !in_bound && rng.chance(15) { recv - rng.below(2_000_000) } else { recv };
@@ -106,7 +107,14 @@ fn gen_case(rng: &mut Rng, tier: u32) -> Case {
             ((target + 99) / 100).min(u32::MAX as u64) as u32
         };
         let ctrl = rng.chance(15);
-        let idx = if !in_bound && rng.chance(40) { i as u32 / 2 } else { i as u32 };
+        // the messages' own indices: usually increasing, but the sorter is not entitled to rely on that
+        let idx = match idx_mode {
+            0..=3 => i as u32,
+            4 => i as u32 / 2,
+            5 => 0,
+            6 => (n - i) as u32,
+            _ => (u32::MAX - 2).wrapping_add(i as u32),
+        };
         msgs.push((idx, recv_m, ecu, l as u32 + 1, ts_dms as u64 * 100, ctrl));
     }
     Case { window, min_delay, table, msgs }
